@@ -196,6 +196,8 @@ def gen_c10(rng, idx, tier, faults):
         if patch:
             ops.append({"op": "SET", "obj": "e0", "params": patch})
             ops.append({"op": "FIT", "obj": "e0", "env": env0, "refit": True, "reparam": True})
+    if rng.random() < 0.3:
+        ops.append({"op": "PREDICT_AFTER_REFILL", "seed": _seed(rng)})
     return {"heap": heap, "y": ydef, "ops": ops, "predict_seed": _seed(rng)}
 
 
@@ -384,6 +386,31 @@ class RidgeWorld:
                         self.log.add("SET", op["obj"], sorted(op["params"]))
                     except Exception as e:  # noqa: BLE001
                         self.violate("set_params_raises", f"{type(e).__name__}: {e}")
+                elif op["op"] == "PREDICT_AFTER_REFILL":
+                    # at the very end: the caller refills the buffer it had fitted on with a new
+                    # batch and asks every fitted estimator for predictions on it
+                    rs = np.random.RandomState(op["seed"] & 0x7FFFFFFF)
+                    X2 = rs.standard_normal(X.shape) * (float(np.max(np.abs(X))) if X.size else 1.0)
+                    if X.dtype.kind != "f":
+                        X2 = np.round(X2)
+                    if self.x_readonly:
+                        X.setflags(write=True)
+                    X[...] = X2.astype(X.dtype)
+                    if self.x_readonly:
+                        X.setflags(write=False)
+                    self.stats["fired"]["caller:buffer_reused"] += 1
+                    for nm, est in sorted(getattr(self, "ests", {}).items()):
+                        if not hasattr(est, "coef_"):
+                            continue
+                        try:
+                            pr = np.asarray(est.predict(X))
+                            ex = np.asarray(X, dtype=float) @ np.asarray(est.coef_, dtype=float).T
+                            if pr.shape != ex.shape or not np.allclose(pr, ex, rtol=1e-6 if X.dtype == np.float32 else 1e-10, atol=1e-12 * max(1.0, float(np.max(np.abs(ex))) if ex.size else 1.0) + (1e-5 * float(np.max(np.abs(ex))) if X.dtype == np.float32 else 0.0)):
+                                self.violate("predict_wrong", f"after the caller refilled the array it had fitted on, predict(<that array>) is not X @ coef_.T for the values it holds now ({nm})")
+                            else:
+                                self.count("predict_on_refilled_buffer_checked")
+                        except Exception as e:  # noqa: BLE001
+                            self.violate("predict_raises", f"{type(e).__name__}: {e}")
                 elif op["op"] == "FIT":
                     recorded["folds"] = None
                     self.fit(news.get(op["obj"], self.cur), op, X, y, recorded)
@@ -527,6 +554,21 @@ class RidgeWorld:
         if folds is None:
             self.count("folds_not_observed")
             return
+        if cvspec is None and recorded["folds"] is not None and (not p.get("shuffle", True) or isinstance(kw.get("random_state"), (int, np.integer))):
+            # where the default assignment is SPECIFIED - no shuffling, or an integer seed: the
+            # first split of KFold(2, shuffle, random_state) - the folds the implementation
+            # used must be that assignment (an unseeded shuffle has no specified assignment
+            # and is judged on the folds actually used)
+            try:
+                from sklearn.model_selection import KFold as _KF
+
+                tr_, te_ = next(_KF(n_splits=2, shuffle=p.get("shuffle", True), random_state=kw.get("random_state") if p.get("shuffle", True) else None).split(np.empty((n, 0))))
+                if not (np.array_equal(np.asarray(folds[0]), tr_) and np.array_equal(np.asarray(folds[1]), te_)):
+                    self.violate("folds_not_the_documented_assignment", f"cv=None, shuffle={p.get('shuffle', True)}, random_state={kw.get('random_state')!r}: folds used {np.asarray(folds[0]).tolist()} / {np.asarray(folds[1]).tolist()} are not the first split of KFold(2, shuffle, random_state)")
+                    return
+                self.count("default_folds_are_the_documented_ones")
+            except Exception:  # noqa: BLE001
+                pass
         f1, f2 = folds
         try:
             cvv = np.asarray(est.cv_values_, dtype=float)
